@@ -349,6 +349,9 @@ ADDED = {
            'part-way through an insertion sequence and used directly, via '
            'copy() and with per-call options are judged against engines of '
            'untouched factories with the same table.',
+    'C03': 'engines used through per-call options and copy(); operand '
+           'grids around every operator; numerals longer than the int/str '
+           'conversion limit and lone surrogates as offending tokens.',
     'C04': 'histories of evaluations without a context (with and then '
            'without data); def names under which the library has methods.',
     'C05': 'family members are also declared through real Python '
@@ -389,11 +392,16 @@ ADDED = {
            '(parametricity tested on the model); collection arguments as '
            'one-shot iterators; deeply nested dictionaries; which results '
            'are lists and which are lazy.',
-    'C14': 'distinct(keySelector), accumulate with a seed.',
+    'C14': 'distinct(keySelector), accumulate with a seed, list '
+           'concatenation, selectMany over lazy and endless inners, zip '
+           'passed as an argument, data supplied as one-shot iterators and '
+           'unsized re-iterables; every case under a 60 s watchdog.',
     'C15': 'literal spellings of unary operators; combining sequences and '
            'normalisation / case-folding look-alikes in the string corpus.',
     'C16': 'words lexed by engines with more / fewer operator words in one '
            'process; identifier letters that are not in NFKC form.',
+    'C17': 'a LinkedContext whose own layer is empty; own-layer reads '
+           '(ask_parent=False) with defaults.',
     'C18': 'a cold-start tier (fresh library context - also one assembled '
            'by hand without finalizer - and freshly parsed statement per '
            'run, thread A suspended at line granularity at the first '
